@@ -11,6 +11,7 @@ package main
 
 import (
 	"bytes"
+	"crypto/sha256"
 	"crypto/ecdsa"
 	"encoding/hex"
 	"encoding/json"
@@ -104,7 +105,8 @@ type LBS struct {
 	ZeroTotal bool   `json:"zero_total,omitempty"` // statistic left empty
 }
 type ProofS struct {
-	Kind  int    `json:"kind"` // 0 honest VRF proof, 1 truncated, 2 random bytes of the right length, 3 empty
+	Kind  int    `json:"kind"` // 0 honest VRF proof, 1 truncated, 2 random bytes of the right length, 3 empty, 4-11 scalar out of range, 12-19 built by the key's OWNER over a non-canonical encoding (see forgedVariant)
+	Tag   int    `json:"tag,omitempty"` // 12: the leading byte of the point encoding; 13-19: the variant's argument
 	Key   int    `json:"key"`
 	Seed  int    `json:"seed"`
 	Role  uint32 `json:"role"`
@@ -234,6 +236,9 @@ func proofBytes(p ProofS) []byte {
 	case 3:
 		return []byte{}
 	}
+	if v := forgedVariant(p.Kind); v != "" {
+		return forgeProof(keys[p.Key].sk, ucon.MakeM(seedHash(p.Seed), p.Role, p.Index), v, int64(p.Tag))
+	}
 	// 4..11: a genuine proof (valid VRF point) whose scalar s (bytes 0..31) or t (bytes 32..63)
 	// is out of range: 0, the group order n, n+1, 2^256-1
 	b := append([]byte{}, honestProof(p).proof...)
@@ -257,8 +262,123 @@ func proofBytes(p ProofS) []byte {
 	return b
 }
 
-// malformedKind: a proof form out of all non-genuine ones (1..11)
-func malformedKind(r *vf.Rng) int { return 1 + r.Intn(11) }
+// forgedVariant: proofs the owner of the key builds (s, t computed over whatever encoding is
+// put into the proof).  12 genuine point under another leading byte, 13 another point, 14 the
+// negated point, 15 a coordinate written as x+p, 16 t+n, 17 a trailing byte, 18 a leading zero
+// byte, 19 another nonce (a VALID proof: same output as the honest one)
+func forgedVariant(kind int) string {
+	switch kind {
+	case 12:
+		return "forge_tagbyte"
+	case 13:
+		return "forge_point"
+	case 14:
+		return "forge_negy"
+	case 15:
+		return "forge_xgep"
+	case 16:
+		return "forge_tplusn"
+	case 17:
+		return "forge_trailing"
+	case 18:
+		return "forge_leadzero"
+	case 19:
+		return "forge_nonce"
+	}
+	return ""
+}
+
+// malformedKind: a proof form out of all non-genuine ones (1..19)
+func malformedKind(r *vf.Rng) int { return 1 + r.Intn(19) }
+
+func msgOf(seed int, role, index uint32) []byte { return ucon.MakeM(seedHash(seed), role, index) }
+
+// refHash: the independent reference verifier's answer for these proof bytes under key k
+type refKey struct {
+	key   int
+	msg   string
+	proof string
+}
+
+var refCache = map[refKey]*common.Hash{}
+
+func refHash(key int, seed int, role, index uint32, pb []byte) (common.Hash, bool) {
+	if key < 0 || key >= len(keys) {
+		return common.Hash{}, false
+	}
+	m := msgOf(seed, role, index)
+	ck := refKey{key, string(m), string(pb)}
+	if v, ok := refCache[ck]; ok {
+		if v == nil {
+			return common.Hash{}, false
+		}
+		return *v, true
+	}
+	out, err := refP2H(&keys[key].sk.PublicKey, m, pb)
+	if err != nil {
+		refCache[ck] = nil
+		return common.Hash{}, false
+	}
+	h := common.Hash(out)
+	refCache[ck] = &h
+	return h, true
+}
+
+// libHash: the library's ProofToHash on the same input (panic = error)
+func libHash(key int, seed int, role, index uint32, pb []byte) (h common.Hash, ok bool) {
+	defer func() {
+		if r := recover(); r != nil {
+			ok = false
+		}
+	}()
+	pk, err := secp256k1VRF.NewVRFVerifier(&keys[key].sk.PublicKey)
+	if err != nil {
+		return h, false
+	}
+	out, err := pk.ProofToHash(msgOf(seed, role, index), pb)
+	if err != nil {
+		return h, false
+	}
+	return common.Hash(out), true
+}
+
+// lenientHash: what a verifier that does not insist on the canonical encoding would output
+func lenientHash(pb []byte) common.Hash {
+	if len(pb) != 129 {
+		return common.Hash{}
+	}
+	return common.Hash(sha256.Sum256(pb[64:129]))
+}
+
+const whatVrfDiffers = "C01-library-VRF-verifier-differs-from-the-reference"
+
+// credentialDiffers: library vs reference on one credential, for the key and message it was made for
+func credentialDiffers(p ProofS) bool {
+	if p.Kind != 0 && forgedVariant(p.Kind) == "" {
+		return false
+	}
+	pb := proofBytes(p)
+	rh, rok := refHash(p.Key, p.Seed, p.Role, p.Index, pb)
+	lh, lok := libHash(p.Key, p.Seed, p.Role, p.Index, pb)
+	return rok != lok || (rok && rh != lh)
+}
+
+func anyCredentialDiffers(c *Case) bool {
+	if !c.H.Cons.Nil && credentialDiffers(c.H.Cons.Proof) {
+		return true
+	}
+	for _, v := range c.H.Val.Votes {
+		if credentialDiffers(v.Proof) {
+			return true
+		}
+	}
+	for _, v := range c.H.Cert.Votes {
+		if credentialDiffers(v.Proof) {
+			return true
+		}
+	}
+	return false
+}
 
 // proofCrashes asks the VRF library itself whether ProofToHash panics on these bytes
 var crashCache = map[string]bool{}
@@ -546,10 +666,13 @@ func build(c *Case) *built {
 		cd := &ucon.BlockConsensusData{Round: new(big.Int).SetUint64(cs.Round), RoundIndex: cs.RoundIndex, Seed: seedHash(1000 + int(cs.Round%7)),
 			SubUsers: cs.SubUsers, ProposerThreshold: cs.PT, ValidatorThreshold: cs.VT, CertValThreshold: cs.CVT}
 		cd.SortitionProof = proofBytes(cs.Proof)
-		if cs.PrioBad || cs.Proof.Kind != 0 {
+		switch {
+		case cs.PrioBad || (cs.Proof.Kind != 0 && forgedVariant(cs.Proof.Kind) == "") || cs.PrioJ < 0 || cs.PrioJ > 200000:
 			cd.Priority = crypto.Keccak256Hash([]byte(fmt.Sprintf("junk-priority-%d", cs.PrioJ)))
-		} else {
+		case cs.Proof.Kind == 0:
 			cd.Priority = ucon.VerifC01ComputePriority(honestProof(cs.Proof).hash, cs.PrioJ)
+		default: // owner-forged: the priority of the output a lenient verifier would derive
+			cd.Priority = ucon.VerifC01ComputePriority(lenientHash(proofBytes(cs.Proof)), cs.PrioJ)
 		}
 		b.prio = cd.Priority
 		switch {
@@ -805,8 +928,9 @@ func caseCoq(c *Case, b *built) string { return caseCoqExt(c, b, nil) }
 func caseCoqExt(c *Case, b *built, ext *coqExt) string {
 	proofIDs, hashIDs, prioIDs := newIDs(1), newIDs(1), newIDs(1)
 	type pu struct {
-		p  ProofS
-		id int
+		p    ProofS
+		id   int
+		hash common.Hash // the reference verifier's output for the key and message the proof was made for
 	}
 	var honest []pu
 	seen := map[int]bool{}
@@ -821,9 +945,14 @@ func caseCoqExt(c *Case, b *built, ext *coqExt) string {
 				crashTbl = append(crashTbl, fmt.Sprintf("%d", id))
 			}
 		}
-		if p.Kind == 0 && !seen[id] {
+		if (p.Kind == 0 || forgedVariant(p.Kind) != "") && !seen[id] {
 			seen[id] = true
-			honest = append(honest, pu{p, id})
+			// the model's VRF table is filled from the independent reference verifier
+			if rh, ok := refHash(p.Key, p.Seed, p.Role, p.Index, pb); ok {
+				honest = append(honest, pu{p, id, rh})
+			} else if p.Kind == 0 {
+				panic("the reference verifier rejects a proof made by Evaluate")
+			}
 		}
 		return id
 	}
@@ -930,13 +1059,13 @@ func caseCoqExt(c *Case, b *built, ext *coqExt) string {
 	totals := uniq(tot)
 	var vrfTbl, seatTbl, prioTbl, qTbl []string
 	for _, h := range honest {
-		pv := honestProof(h.p)
+		pv := proofVal{hash: h.hash}
 		hid := hashIDs.id(pv.hash.Bytes())
 		vrfTbl = append(vrfTbl, fmt.Sprintf("((%d, %d, %d, %d, %d), %d)", h.p.Key, h.p.Seed, h.p.Role, h.p.Index, h.id, hid))
 	}
 	doneHash := map[int]bool{}
 	for _, h := range honest {
-		pv := honestProof(h.p)
+		pv := proofVal{hash: h.hash}
 		hid := hashIDs.id(pv.hash.Bytes())
 		if doneHash[hid] {
 			continue
@@ -1045,14 +1174,16 @@ func goodWeight(c *Case, lb LBS, total uint64, seed int, step uint32, index uint
 		if !rx.nonMember && !isMember(val) {
 			continue
 		}
-		p := v.Proof
-		if p.Kind != 0 || p.Key != val.Key || p.Seed != seed || p.Role != step || p.Index != index {
+		// ground truth for "valid sortition proof": the independent reference verifier, under the
+		// voter's own key, for exactly (seed, step, index)
+		rh, ok := refHash(val.Key, seed, step, index, proofBytes(v.Proof))
+		if !ok {
 			continue
 		}
 		if !signedBy[val.Bls] {
 			continue
 		}
-		j, pan := seatsOf(honestProof(p).hash, val.Stake, thr, total)
+		j, pan := seatsOf(rh, val.Stake, thr, total)
 		if pan || j <= 0 || uint32(j) != v.Votes {
 			continue
 		}
@@ -1082,7 +1213,7 @@ func propertyHolds(c *Case, b *built, rx relax) bool {
 		pt, vt = cs.PT, cs.VT
 	}
 	// proposer credential
-	if cs.Signer < 0 || cs.Proof.Kind != 0 || cs.PrioBad {
+	if cs.Signer < 0 {
 		return false
 	}
 	// the header is sealed, over its own hash, by the key that signed the consensus data
@@ -1102,12 +1233,12 @@ func propertyHolds(c *Case, b *built, rx relax) bool {
 	if !rx.nonMember && !isMember(*prop) {
 		return false
 	}
-	p := cs.Proof
-	if p.Key != cs.Signer || p.Seed != c.SeedH.Seed || p.Role != stepProposal || p.Index != cs.RoundIndex {
+	ph, pok := refHash(cs.Signer, c.SeedH.Seed, stepProposal, cs.RoundIndex, proofBytes(cs.Proof))
+	if !pok {
 		return false
 	}
-	j, pan := seatsOf(honestProof(p).hash, prop.Stake, pt, b.total)
-	if pan || uint32(j) != cs.SubUsers || j < 0 || j > 200000 || ucon.VerifC01ComputePriority(honestProof(p).hash, j) != b.prio {
+	j, pan := seatsOf(ph, prop.Stake, pt, b.total)
+	if pan || uint32(j) != cs.SubUsers || j < 0 || j > 200000 || ucon.VerifC01ComputePriority(ph, j) != b.prio {
 		return false
 	}
 	if j <= 0 && !rx.zeroSeat {
@@ -1178,6 +1309,9 @@ func oracle(c *Case, b *built) []string {
 		// a crash of the verifier is an outcome of its own (recorded in the distribution as PANIC
 		// and compared with the model's EPanic); it is not an acceptance, so not a C01 violation
 		return nil
+	}
+	if anyCredentialDiffers(c) {
+		return []string{whatVrfDiffers}
 	}
 	if c.Verdict != 0 {
 		return nil
